@@ -41,14 +41,16 @@ type cENI struct {
 type Cloud struct {
 	register.Interface // unimplemented methods panic (nil embedded interface): a run that reaches one is reported
 
-	w         *World
-	enis      map[string]*cENI
-	order     []string
-	nextENI   int
-	nextIP    int
-	calls     int
-	inflight  int
-	fullReads int
+	w            *World
+	enis         map[string]*cENI
+	order        []string
+	nextENI      int
+	nextIP       int
+	calls        int
+	inflight     int
+	fullReads    int
+	deleteFailed map[string]bool
+	unacked      map[string]bool // addresses assigned by a call that then reported failure, not yet revealed by a full read
 	// mutations issued by the controller, for the fixed-point oracle
 	mutations      int
 	history        []string
@@ -58,7 +60,7 @@ type Cloud struct {
 }
 
 func newCloud(w *World) *Cloud {
-	return &Cloud{w: w, enis: map[string]*cENI{}, timedOut: map[string]string{}, timedOutAssign: map[string][]aliyunClient.IPSet{}}
+	return &Cloud{w: w, enis: map[string]*cENI{}, timedOut: map[string]string{}, timedOutAssign: map[string][]aliyunClient.IPSet{}, deleteFailed: map[string]bool{}, unacked: map[string]bool{}}
 }
 
 func (c *Cloud) ip4() string {
@@ -268,6 +270,7 @@ func (c *Cloud) DescribeNetworkInterfaceV2(ctx context.Context, opts ...aliyunCl
 	if o.InstanceID != nil && *o.InstanceID != "" && (o.NetworkInterfaceIDs == nil || len(*o.NetworkInterfaceIDs) == 0) {
 		// the read a full synchronisation starts with
 		c.w.unsynced, c.w.amnesia = false, false
+		c.unacked = map[string]bool{}
 		c.fullReads++
 	}
 	c.leave("describe", fmt.Sprintf("%d", len(out)))
@@ -319,6 +322,7 @@ func (c *Cloud) CreateNetworkInterfaceV2(ctx context.Context, opts ...aliyunClie
 	e.SGs = nio.SecurityGroupIDs
 	e.Instance = "" // not attached yet
 	c.w.pendingInstance[e.ID] = nio.InstanceID
+	c.w.pendingSince[e.ID] = c.w.reconciles
 	c.mutated("create " + e.ID)
 	if fault == "err-after" {
 		c.timedOut[pkey] = e.ID
@@ -344,10 +348,11 @@ func (c *Cloud) AttachNetworkInterface(ctx context.Context, opts ...aliyunClient
 	}
 	fault := c.enter("attach", id+" -> "+inst)
 	e := c.enis[id]
-	c.w.quotaOnAttach(inst)
+	c.w.quotaOnAttach(inst, id)
 	if fault == "err" || fault == "quota-eni" || fault == "throttle" || e == nil {
 		c.w.run.Fault("cloud.attach.err")
 		c.leave("attach", "err")
+		delete(c.w.pendingInstance, id) // the caller gives this interface up
 		if e == nil {
 			return kit.CloudErr(apiErr.ErrInvalidENINotFound, "no such eni")
 		}
@@ -400,11 +405,13 @@ func (c *Cloud) DeleteNetworkInterfaceV2(ctx context.Context, eniID string) erro
 	if fault == "err" || fault == "throttle" {
 		c.w.run.Fault("cloud.delete.err")
 		c.leave("delete", "err")
+		c.deleteFailed[eniID] = true
 		return cloudErr(fault)
 	}
 	e := c.enis[eniID]
 	if e != nil {
 		if e.Status != aliyunClient.ENIStatusAvailable {
+			c.deleteFailed[eniID] = true
 			c.leave("delete", "err invalid state "+e.Status)
 			return kit.CloudErr(apiErr.ErrInvalidENIState, "eni is "+e.Status)
 		}
@@ -482,9 +489,19 @@ func (c *Cloud) assign(site string, opts *aliyunClient.NetworkInterfaceOptions, 
 		}
 		delete(c.timedOutAssign, akey)
 	}
+	// addresses left behind by a call that reported failure are unknown to the caller until it
+	// reads the interface list again; its requests are judged against what it can know
 	pending := 0
-	if prev, ok := c.timedOutAssign[akey]; ok {
-		pending = len(prev)
+	if e != nil {
+		l := e.V4
+		if v6 {
+			l = e.V6
+		}
+		for _, ip := range l {
+			if c.unacked[ip] {
+				pending++
+			}
+		}
 	}
 	c.w.quotaOnAssign(e, n, pending, v6)
 	switch fault {
@@ -513,6 +530,9 @@ func (c *Cloud) assign(site string, opts *aliyunClient.NetworkInterfaceOptions, 
 	if fault == "err-after" {
 		// timeout after effect: the addresses exist, nothing is reported
 		c.timedOutAssign[akey] = out
+		for _, ip := range out {
+			c.unacked[ip.IPAddress] = true
+		}
 		c.w.run.Fault("cloud." + site + ".err-after")
 		c.leave(site, fmt.Sprintf("err after effect %v", out))
 		return nil, cloudErr(fault)
